@@ -16,20 +16,29 @@ Fixpoint value_okb (v : value) : bool :=
   | VDict items => forallb (fun kv => value_okb (snd kv)) items
   end.
 
+(* largest batch rank among the nodes of a subtree *)
+Fixpoint max_rank (t : tree) : nat :=
+  match t with
+  | Leaf _ _ => 0
+  | Node _ bs _ _ es => Nat.max (List.length bs) (fold_right (fun kv m => Nat.max (max_rank (snd kv)) m) 0 es)
+  end.
+
+
 Definition node_keys (t : tree) : list string := match t with Node _ _ _ _ es => map fst es | Leaf _ _ => [] end.
 
 (* the region where the code is free of the recorded defects, decided from the node the call is issued on and the call:
    - values are tensordicts that are coherent by themselves and contain no hollow node (D101/D102 need one),
    - batch_size is assigned on a node without hollow descendants (D101/D102),
    - rename_key_ gets a plain string as new key, unflatten_keys finds no key to split (D103),
-   - [pending]: calls whose preservation proof is not part of this development yet *)
+   - auto_batch_size_(k) is in its growing regime: k is not below the rank of a node of the subtree (D108 otherwise),
+     and the subtree has no hollow node (D101) *)
 Definition clean0 (self : tree) (o : op0) : bool :=
   match o with
   | OSet _ v _ | OSet_ _ v | OSetDefault _ v | OUpdate v _ => value_okb v
   | ORename _ new _ => Nat.eqb (List.length new) 1
   | OBatchSize _ _ => hollow_free self
   | OUnflatten sep => forallb (fun k => negb (C04_Tree.str_contains sep k)) (node_keys self)
-  | OAutoBS _ => false
+  | OAutoBS k => hollow_free self && match k with None => true | Some kk => Nat.leb (max_rank self) kk end
   | _ => true
   end.
 
